@@ -4,6 +4,8 @@ V: the translated increments summed over the degrees of freedom vs the running f
 H: Model/Chunking.lean (pad / reshape / map / ravel / trim) vs the running wrappers for 1..16 cores (driver).
 Implementation arm: exact series / Donnell oracle vs Panel.uvw, Panel.strain, Panel.stress, PanelAssembly slices.
 """
+import os
+
 import numpy as np
 
 from tools import bardell, panel_v
@@ -265,7 +267,7 @@ def correspondence(ctx):
     # source reading of the def-level wrappers (fuvw / fg / fstrain incl. the pad / reshape / prange / ravel / trim logic) of the field modules:
     # the translator above covers the C-level cf* bodies, this covers the rest of the two files as written
     from tools import source_tie
-    if source_tie.check(ctx, 'C11', ('panel_field',)):
+    if source_tie.check(ctx, 'C11', ('panel_field',), predicate=source_field_predicate):
         return
     dist = dict(models={}, cores={}, npts={}, NL=0)
     for t in range(ctx.scale(40, 400)):
@@ -309,7 +311,74 @@ def correspondence(ctx):
     ctx.cov['input_distribution'] = dist
 
 
+def source_field_predicate(seed=11, n=10):
+    """C11 ON THE SOURCE READING of the two field modules (tools/cyexec.py executes clt_bardell_field*.pyx as written): displacements and rotations
+    against the Ritz series, linear strains against the Donnell relations, for point counts that are not multiples of the core count, m != n and
+    edge flags that differ between the fields.  returns None or (text, replay dict)"""
+    from tools import cyexec, cyexec_check as cc
+    ext, how, so = cc.bardell_externs()
+    try:
+        for rel, ndof, lean_model in (('panel/models/clt_bardell_field.pyx', 3, 'Plate'), ('panel/models/clt_bardell_field_w.pyx', 1, 'PlateW')):
+            try:
+                ns = cyexec.load(cc.source(rel), repo=cc.REPO, externs=ext)
+            except Exception as e:                          # noqa (unreadable source: reported by the comparison with the binary)
+                continue
+            r = np.random.RandomState(seed)
+            for k in range(n):
+                P = cc.Panel()
+                P.a, P.b = float(r.uniform(.5, 3.)), float(r.uniform(.5, 3.))
+                P.r = float(r.choice([0., r.uniform(1., 10.)])) if ndof == 3 else 0.
+                P.alpharad = 0.
+                P.m, P.n = [(4, 6), (7, 4), (5, 5), (3, 8), (6, 5)][k % 5]
+                for w_ in 'uvw':
+                    for e_ in ('1tx', '1rx', '2tx', '2rx', '1ty', '1ry', '2ty', '2ry'):
+                        setattr(P, w_ + e_, float(r.randint(0, 2)))
+                c = r.uniform(-1, 1, ndof * P.m * P.n)
+                npts, ncores = [(13, 4), (7, 2), (3, 4), (10, 3), (11, 2), (8, 4)][k % 6]
+                xs, ys = r.uniform(0, P.a, npts), r.uniform(0, P.b, npts)
+                desc = dict(source=rel, a=P.a, b=P.b, r=P.r, m=P.m, n=P.n, points=npts, cores=ncores, seed=seed, case=k)
+                want = series(P, dict(lean_model=lean_model), c, xs, ys)
+                try:
+                    out = [np.asarray(v) for v in ns['fuvw'](c, P, xs, ys, ncores)]
+                except Exception as e:                      # noqa
+                    return ('%s (source as written): fuvw raises %s: %s for m, n = %d, %d and %d points on %d cores'
+                            % (rel, type(e).__name__, str(e)[:80], P.m, P.n, npts, ncores), desc)
+                names = ['u', 'v', 'w', 'phix', 'phiy'] if len(out) == 5 else ['w', 'phix', 'phiy']
+                refs = dict(u=want['u'], v=want['v'], w=want['w'], phix=-want['wx'], phiy=-want['wy'])
+                for nm, got in zip(names, out):
+                    sc = max(np.abs(refs[nm]).max(), 1e-300)
+                    if got.shape != refs[nm].shape or np.abs(got - refs[nm]).max() > 1e-9 * sc:
+                        kk = int(np.abs(got - refs[nm]).argmax()) if got.shape == refs[nm].shape else 0
+                        return ('%s (source as written): %s at (x=%.6g, y=%.6g) is %.9e, the Ritz series gives %.9e (m, n = %d, %d; %d points on %d cores)'
+                                % (rel, nm, xs[kk], ys[kk], got[kk] if got.shape == refs[nm].shape else float('nan'), refs[nm][kk], P.m, P.n, npts, ncores), desc)
+                if 'fstrain' in ns and ndof == 3:
+                    es = np.stack([np.asarray(v_) for v_ in ns['fstrain'](c, P, xs, ys, ncores, 0)], axis=1)      # (exx, eyy, gxy, kxx, kyy, kxy) arrays
+                    ir_ = 1. / P.r if P.r else 0.
+                    ref = np.stack([want['ux'], want['vy'] + ir_ * want['w'], want['uy'] + want['vx'], -want['wxx'], -want['wyy'], -2 * want['wxy']], axis=1)
+                    sc = max(np.abs(ref).max(), 1e-300)
+                    if es.shape != ref.shape or np.abs(es - ref).max() > 1e-9 * sc:
+                        kk, q_ = np.unravel_index(np.abs(es - ref).argmax(), ref.shape) if es.shape == ref.shape else (0, 0)
+                        return ('%s (source as written): linear strain component %s at (x=%.6g, y=%.6g) is %.9e, the Donnell relation applied to the series gives '
+                                '%.9e' % (rel, ['exx', 'eyy', 'gxy', 'kxx', 'kyy', 'kxy'][q_], xs[kk], ys[kk], es[kk, q_], ref[kk, q_]), desc)
+    finally:
+        if so:
+            try:
+                os.remove(so)
+            except OSError:
+                pass
+    return None
+
+
 def search(ctx, reason):
+    found = None
+    try:
+        found = source_field_predicate()
+    except Exception as e:                                  # noqa
+        ctx.log('source-level predicate unusable: %r' % (e,))
+    if found:
+        ctx.violation('C11 fails on the source as written: ' + found[0] + ' (the running binary is stale w.r.t. this source if the implementation '
+                      'arm stays quiet)', dict(kind='source reading', broken=reason, **found[1]))
+        return True
     try:
         ir = translate(ctx)
     except Exception as e:
